@@ -38,14 +38,25 @@ def generate(rng, tier):
         rng.shuffle(others)
         k = rng.randint(0, len(others))
         order = others[:k] + ["RA", "DEC"] + others[k:]
+        if rng.random() < 0.12:
+            # a 2-D cube without celestial axes: interpolation regrids it, adaptive / exact must refuse the target
+            nd = 2
+            order = rng.choice([["WAVE", "TIME"], ["TIME", "WAVE"]])
         shape = [rng.randint(2, 5) for _ in range(nd)]
         while len(set(shape)) == 1 and nd > 1:
             shape[rng.randrange(nd)] += 1
         kind = rng.choice(["same", "shift", "shift", "shift", "rescale", "permuted", "other_types"])
         algo = rng.choice(["interpolation"] * 5 + ["adaptive", "exact", "nearest"])
         shift = [rng.choice([0, 0, 1, -1, 2, -2, rng.choice([6, -6])]) for _ in range(nd)] if kind == "shift" else [0] * nd
+        as_ = rng.choice(["wcs", "wcs", "lowlevel", "header"])
+        if "RA" not in order:
+            # (refusal of adaptive / exact for a non-celestial target, whatever form the target is given in)
+            algo = rng.choice(["adaptive", "exact", "adaptive", "exact", "interpolation"])
+            as_ = rng.choice(["wcs", "lowlevel", "lowlevel", "header"])
+            if kind in ("permuted", "other_types") and rng.random() < 0.7:
+                kind, shift = "same", [0] * nd
         yield {"order": order, "shape": shape, "kind": kind, "algo": algo, "shift": shift, "crpix_seed": rng.randrange(1000),
-               "as": rng.choice(["wcs", "wcs", "lowlevel", "header"]),
+               "as": as_,
                "shape_out": rng.choice(["explicit", "target", "target", "missing", "other", "override"]),
                "footprint": rng.random() < 0.5}
 
@@ -85,24 +96,24 @@ def run(case):
     t_order = list(case["order"])
     out_shape = list(shape)
     if case["kind"] == "permuted":
-        i = t_order.index("RA")
+        i = t_order.index("RA") if "RA" in t_order else 0
         if nd >= 3:
             j = 0 if i > 0 else nd - 1
             # move a non-celestial axis to the other side of the pair
             ax = t_order.pop(j)
             t_order.insert(nd - 1 - j if j == 0 else 0, ax)
         else:
-            t_order = ["DEC", "RA"]
+            t_order = t_order[::-1]
     elif case["kind"] == "other_types":
-        t_order = [("FREQ" if a in ("WAVE", "TIME") else a) for a in t_order]
-        if nd == 2:
+        t_order = [("FREQ" if a == "WAVE" or (a == "TIME" and "WAVE" not in t_order) else a) for a in t_order]
+        if nd == 2 and "RA" in t_order:
             t_order = ["RA", "DEC"]
     if case["shape_out"] in ("other", "override"):
         out_shape = [s + 1 if k == 0 else max(1, s - 1) for k, s in enumerate(shape)]
     # "override": the target advertises its own array shape (the source's) and a different shape_out is requested
     own_shape = list(shape) if case["shape_out"] == "override" else list(out_shape)
     t = make_wcs(t_order, own_shape, case["crpix_seed"], with_shape=case["shape_out"] != "missing")
-    if case["kind"] == "other_types" and nd == 2:
+    if case["kind"] == "other_types" and nd == 2 and "RA" in t_order:
         t.wcs.ctype = ["GLON-TAN", "GLAT-TAN"]
         t.wcs.set()
     d_pix = np.array(case["shift"][::-1], dtype=float)      # pixel order
